@@ -123,8 +123,22 @@ def work(task):
             stats['lfp_reached'] += 1
             if G != L: diff = diff or 'bounded iteration reached the least fixpoint but the result differs from it'
       if diff:
-        h.add_viol('mismatch/%s/%s' % (clause, 'iterative' if script[5].iterations else 'single'), '%s depth=%s on E=%s: %s | %s' % (pred, case.info['depth'], d['E'], diff, semcheck.oneline(text)), case, dict(pred=pred, db=d))
+        sig = 'mismatch/%s/%s' % (clause, 'iterative' if script[5].iterations else 'single')
+        if case.info['shape'] == 'ring3_through_functor' and pred == 'M' and script[5].iterations and 'misses rows' in diff or case.info['shape'] == 'ring3_through_functor' and pred == 'M' and script[5].iterations and clause == 'exact':
+          sig = 'F29-functor-instance-of-an-iterative-multi-predicate-recursion-under-iterates'
+        h.add_viol(sig, '%s depth=%s on E=%s: %s | %s' % (pred, case.info['depth'], d['E'], diff, semcheck.oneline(text)), case, dict(pred=pred, db=d))
         break
+    # the same iterative plan run the way `logica.py run` runs SQLite programs: preamble, defines_and_exports and the main
+    # statement executed once each, in order (sqlite3_logica.RunSqlScript)
+    if script[0] == 'script' and script[5].iterations and clause == 'exact':
+      for d in case.dbs[::-1][:3]:
+        tables = {'E': (['col0', 'col1'], [tuple(r) for r in d['E']])}
+        exp = refsem.Evaluator(rules, tables, depths=case.depths).rows(pred)
+        db.load(d); got = db.run(script, via_concertina=False); stats['script_path_runs'] = stats.get('script_path_runs', 0) + 1
+        diff = compare.compare_rows(exp[0], exp[1], got[1], got[2]) if got[0] == 'rows' else got[1]
+        if diff:
+          h.add_viol('F28-sqlite-script-execution-runs-iteration-members-once', '%s depth=%s on E=%s, executed as logica.py run does: %s | %s' % (pred, case.info['depth'], d['E'], diff[:300], semcheck.oneline(text)), case, dict(pred=pred, db=d, path='script'))
+          break
   if len(results) > 1 and nonempty: stats['nontrivial'] += 1
   h.outcomes |= results
   h.samples.append(dict(family=case.family, program=text, depth=case.info['depth'], databases=len(case.dbs)))
